@@ -632,6 +632,15 @@ def run(chk, replay=None):
         hot.append({"ConfigSet": {"key": key, "value": "h%d" % j, "config_type": None, "desc": None,
                                   "history_id": hid, "history_table_id": None, "op_time": 1700000000000 + hid, "op_user": None}})
     rcases.append({"threshold": 40, "phases": [{"reqs": hot}, {"reqs": hot[:1]}], "plants": [], "pace": True})
+    # a LARGE state: the snapshot holds 20000+ configs, whose records are loaded before the user records (about 2 s); what
+    # the user table serves - the admin record in particular - must be what it served before the stop (the default admin
+    # must not be created again while the load is still running)
+    large = []
+    for j in range(25000):
+        hid += 1
+        large.append({"ConfigSet": {"key": c07.K("lg%d" % j, "g1", ""), "value": "x", "config_type": None, "desc": None,
+                                    "history_id": hid, "history_table_id": None, "op_time": 1700000000000 + hid, "op_user": None}})
+    rcases.append({"threshold": 20000, "phases": [{"reqs": large}, {"reqs": large[:1]}], "plants": [], "pace": False, "timeout_s": 600})
     # the raft log spread over SEVERAL files (rollover hook: a file is full after 128 records), compactions that cut across file
     # boundaries and remove whole files, three restarts
     multi = []
